@@ -347,6 +347,13 @@ func (k Keeper) CloseBatchAuction(ctx context.Context, auction types.AuctionI) e
 		return err
 	}
 
+	// Publish the matched price of this calculation; it is zero when nothing is matched.
+	// The auction is stored by ExtendRound or ApplyVestingSchedules below.
+	ba.MatchedPrice = math.LegacyZeroDec()
+	if !mInfo.MatchedPrice.IsNil() {
+		ba.MatchedPrice = mInfo.MatchedPrice
+	}
+
 	// Close the auction when maximum extended round + 1 is the same as the length of end times
 	// If the value of MaxExtendedRound is 0, it means that an auctioneer does not want have an extended round
 	if ba.MaxExtendedRound+1 == uint32(len(auction.GetEndTimes())) {
